@@ -37,11 +37,12 @@ SetWT(t) == /\ Step([op |-> "set_wt", t |-> t])
 ClearWT == /\ wt # Unset
            /\ Step([op |-> "clear_wt"])
            /\ wt' = Unset /\ txnow' = FALSE /\ UNCHANGED <<dl, intx, vbegun, nst>>
-(* deadlines are exercised outside transactions *)
-SetDL(k) == /\ ~intx /\ dl # k
+(* an expired deadline is set outside transactions only (inside one it would fail the COMMIT); a future one anywhere: *)
+(* it leaves the write time in force, and the transaction's own time, alone                                         *)
+SetDL(k) == /\ (intx => k = "future") /\ dl # k
             /\ Step([op |-> "set_dl", kind |-> k])
             /\ dl' = k /\ UNCHANGED <<wt, intx, vbegun, txnow, nst>>
-ClearDL == /\ ~intx /\ dl # "none"
+ClearDL == /\ dl # "none" /\ (intx => dl = "future")
            /\ Step([op |-> "clear_dl"])
            /\ dl' = "none" /\ UNCHANGED <<wt, intx, vbegun, txnow, nst>>
 Begin == /\ ~intx /\ dl # "past"
